@@ -392,15 +392,22 @@ class _Paginator:
         kw = dict(kw)
         cfg = kw.pop("PaginationConfig", None) or {}
         page = int(cfg.get("PageSize", self.s3.page_size))
+        max_items = cfg.get("MaxItems")          # botocore: a cap on the TOTAL number of items the paginator returns
         kw.pop("MaxKeys", None)
         token: Optional[str] = None
+        returned = 0
         while True:
             args = dict(kw, MaxKeys=page)
             if token is not None:
                 args["ContinuationToken"] = token
             resp = self.s3.list_objects_v2(**args)
+            if max_items is not None:
+                room = int(max_items) - returned
+                if len(resp.get("Contents", [])) > room:
+                    resp = dict(resp, Contents=resp.get("Contents", [])[:max(room, 0)])
+                returned += len(resp.get("Contents", []))
             yield resp
-            if not resp.get("IsTruncated"):
+            if not resp.get("IsTruncated") or (max_items is not None and returned >= int(max_items)):
                 return
             token = resp["NextContinuationToken"]
 
